@@ -114,7 +114,10 @@ InsertEntryP(t, x, cmode, rmode) ==
              ELSE IF cmode = "merge" THEN Res("ok", NoTier, grown(Append(rest, Pt(x.t, t.ents[i].l \o "-" \o x.l))), warn)
              ELSE Fail("CollisionError", t)
 
-InsertEntry(t, x, cmode, rmode) == IF t.kind = "I" THEN InsertEntryI(t, x, cmode, rmode) ELSE InsertEntryP(t, x, cmode, rmode)
+\* both option values are validated first (utils.validateOption): an invalid one raises WrongOption and nothing changes
+InsertEntry(t, x, cmode, rmode) ==
+  IF cmode \notin {"error", "replace", "merge"} \/ rmode \notin {"silence", "warning", "error"} THEN Fail("WrongOption", t)
+  ELSE IF t.kind = "I" THEN InsertEntryI(t, x, cmode, rmode) ELSE InsertEntryP(t, x, cmode, rmode)
 
 (* ---------------- eraseRegion ------------------------------------------ *)
 (* match by lax crop, delete matches, re-insert truncated edges, shift,     *)
